@@ -15,7 +15,7 @@ from mzverif.core import Discard, Sub, Violation, call, require
 
 ID = "C05"
 LEVEL = "exploration"
-TECHNIQUE = "round trip (serialize -> load in memory / ZANJ file) over generated and hand-built datasets x 3 formats x threshold rule, second-generation round trips of the loaded dataset (rearranged, mixed provenance, same object), collections incl. members sharing a name; oracle = field-by-field comparison with the source dataset"
+TECHNIQUE = "round trip (serialize -> load in memory / ZANJ file) over generated and hand-built datasets x 3 formats x threshold rule, second-generation round trips of the loaded dataset (rearranged, mixed provenance, same object), collections incl. members sharing a name; oracle = field-by-field comparison with the source dataset; datasets saved to their own files by several threads at once"
 RULE = (
     "case = (dataset: generated from a spec or hand-built with ragged / length-1 / length-2 / very long (>127, >255 cells) solutions; "
     "metadata combination: per-maze / collected / neither / both; format: full / minimal / minimal_soln_cat / auto under threshold "
